@@ -17,6 +17,8 @@
 use crate::ctx::Ctx;
 use crate::jsonproto::{enc, hex};
 use crate::rng::Rng;
+use routee_compass::app::compass::compass_app::CompassApp;
+use routee_compass::app::compass::config::compass_app_builder::CompassAppBuilder;
 use routee_compass::app::compass::response::{
     response_output_format::ResponseOutputFormat, response_output_policy::ResponseOutputPolicy,
     response_sink::ResponseSink, write_mode::WriteMode,
@@ -936,6 +938,298 @@ fn case_x(ctx: &mut Ctx, idx: usize, fmts: &[FmtSpec], nest: bool, resp: &Value)
 
 // ---------------------------------------------------------------------------------------------------
 
+// ---------------------------------------------------------------------------------------------------
+// case kind A: CompassApp::run end to end on the repository's three-vertex test network
+
+fn build_app() -> Option<CompassApp> {
+    let d = "/repo/rust/routee-compass/src/app/compass/test/speeds_test";
+    let toml = format!(
+        r#"
+parallelism = 4
+[graph]
+edge_list_input_file = "{d}/test_edges.csv"
+vertex_list_input_file = "{d}/test_vertices.csv"
+verbose = false
+[traversal]
+type = "speed_table"
+speed_table_input_file = "{d}/test_edge_speeds.csv"
+speed_unit = "kilometers_per_hour"
+output_time_unit = "hours"
+[access]
+type = "no_access_model"
+[cost]
+cost_aggregation = "sum"
+[cost.weights]
+distance = 0
+time = 1
+[cost.vehicle_rates.time]
+type = "raw"
+[cost.vehicle_rates.distance]
+type = "raw"
+[plugin]
+input_plugins = []
+output_plugins = [ {{ type = "summary" }}, {{ type = "traversal", route = "edge_id", geometry_input_file = "{d}/edge_geometries.txt" }} ]
+"#
+    );
+    let _ = std::fs::create_dir_all(DIR);
+    let cfg_path = format!("{}/{}_app.toml", DIR, std::process::id());
+    std::fs::write(&cfg_path, &toml).ok()?;
+    let abs = std::fs::canonicalize(&cfg_path).ok()?;
+    let app = CompassApp::try_from_config_toml_string(toml, abs.to_str()?.to_string(), &CompassAppBuilder::default()).ok();
+    let _ = std::fs::remove_file(&cfg_path);
+    app
+}
+
+struct AppCase {
+    existing: Option<String>,
+    fmt: FmtSpec,
+    rate: Option<i64>,
+    persist: bool,
+    parallelism: usize,
+    queries: Vec<Value>,
+}
+
+/// returns the file the run left
+fn case_a(ctx: &mut Ctx, idx: usize, app: &CompassApp, c: &AppCase) -> Option<String> {
+    let path = file_path(idx);
+    let _ = std::fs::create_dir_all(DIR);
+    let _ = std::fs::remove_file(&path);
+    if let Some(e) = &c.existing {
+        std::fs::write(&path, e).expect("write existing file");
+    }
+    let real_fmt = c.fmt.build();
+    let mut policy = json!({"type": "file", "filename": path, "format": c.fmt.config()});
+    if let Some(r) = c.rate {
+        policy["file_flush_rate"] = json!(r);
+    }
+    let cfg = json!({
+        "parallelism": c.parallelism,
+        "response_persistence_policy": if c.persist { "persist_response_in_memory" } else { "discard_response_from_memory" },
+        "response_output_policy": policy,
+    });
+    let res = catch_unwind(AssertUnwindSafe(|| app.run(c.queries.clone(), Some(&cfg))));
+    let file = std::fs::read_to_string(&path).unwrap_or_default();
+    let _ = std::fs::remove_file(&path);
+    let n_bad = c.queries.iter().filter(|q| !q.is_object()).count();
+    let header = real_fmt.initial_file_contents().unwrap_or_default();
+    let opened = c.existing.clone().unwrap_or(header.clone());
+    let returned: Vec<Value> = match res {
+        Ok(Ok(v)) => v,
+        other => {
+            ctx.count("A/run-failed");
+            ctx.fail(idx, "app/run-failed", format!("CompassApp::run did not return responses: {}", match other { Ok(Err(e)) => clip(&e.to_string()), _ => "panic".into() }));
+            ctx.emit(idx, format!("A n {} n {} 1 0 0", c.fmt.enc(), c.persist as u8), "apperr".into());
+            return None;
+        }
+    };
+    let prefix_ok = file.starts_with(&opened);
+    let rest: &str = if prefix_ok { &file[opened.len()..] } else { "" };
+    let lines: Vec<&str> = if rest.is_empty() { vec![] } else { rest.strip_suffix('\n').unwrap_or(rest).split('\n').collect() };
+    // the responses that went through the sink, as they were before the write
+    let input_errors: Vec<Value> = returned[returned.len().saturating_sub(n_bad)..].to_vec();
+    let mut inexact = false;
+    let written_post: Vec<Value> = if c.persist {
+        returned[..returned.len().saturating_sub(n_bad)].to_vec()
+    } else {
+        lines
+            .iter()
+            .filter_map(|l| {
+                let v = serde_json::from_str::<Value>(l).ok()?;
+                if serde_json::to_string(&v).ok()?.as_str() != *l {
+                    inexact = true;
+                }
+                Some(v)
+            })
+            .collect()
+    };
+    let written_pre: Vec<Value> = match &c.fmt {
+        FmtSpec::Csv { cols, .. } => written_post
+            .iter()
+            .map(|post| {
+                let mut pre = post.clone();
+                // undo the formatter's bookkeeping: it appended one key when a cell failed
+                let probe = {
+                    let mut p0 = post.clone();
+                    if let Some(o) = p0.as_object_mut() {
+                        if o.contains_key("csv_error") {
+                            o.shift_remove("csv_error");
+                        } else {
+                            o.shift_remove("error");
+                        }
+                    }
+                    p0
+                };
+                if cols.iter().any(|(_, m)| m.reference(&probe).is_none()) {
+                    pre = probe;
+                }
+                pre
+            })
+            .collect(),
+        _ => written_post.clone(),
+    };
+    let canonical = if !prefix_ok {
+        file.clone()
+    } else if c.parallelism > 1 {
+        let mut ls: Vec<&str> = rest.split('\n').collect();
+        ls.sort();
+        format!("{}{}", opened, ls.join("\n"))
+    } else {
+        file.clone()
+    };
+    // the model's view: `parallelism` workers sharing the written responses
+    let mut workers: Vec<Vec<&Value>> = vec![vec![]; c.parallelism.max(1)];
+    for (i, r) in written_pre.iter().enumerate() {
+        let k = workers.len();
+        workers[i % k].push(r);
+    }
+    let mut line = format!(
+        "A {} {} {} {} {}",
+        match &c.existing {
+            Some(e) => format!("s {}", hex(e)),
+            None => "n".into(),
+        },
+        c.fmt.enc(),
+        match c.rate {
+            Some(r) => format!("s {}", r),
+            None => "n".into(),
+        },
+        c.persist as u8,
+        workers.len()
+    );
+    for w in &workers {
+        line.push_str(&format!(" {}", w.len()));
+        for r in w {
+            line.push(' ');
+            line.push_str(&enc(r));
+        }
+    }
+    line.push_str(&format!(" {}", input_errors.len()));
+    for r in &input_errors {
+        line.push(' ');
+        line.push_str(&enc(r));
+    }
+    let out = format!("ok {} {}", hex(&canonical), returned.len());
+    ctx.count(&format!("A/parallelism-{}", c.parallelism));
+    ctx.count(if c.persist { "A/persist" } else { "A/discard" });
+    ctx.count(&format!("A/{}", c.fmt.shape().split('x').next().unwrap_or("")));
+    if n_bad > 0 {
+        ctx.count("A/with-input-plugin-errors");
+    }
+    if inexact {
+        ctx.count("A/discard-reparse-inexact");
+    }
+    if c.queries.len() >= 2 {
+        ctx.nontrivial(&format!("A {} {} {} {} {}", c.fmt.shape(), c.parallelism, c.queries.len(), c.persist, n_bad));
+    }
+    // ---- oracle: one record per response of the batch
+    let expected = c.queries.len();
+    if !prefix_ok {
+        ctx.fail(idx, "sink/file-prefix-changed", format!("{:?} -> {:?}", clip(&opened), clip(&file)));
+    } else {
+        if c.persist && returned.len() != expected {
+            ctx.fail(idx, "app/response-count", format!("{} queries, {} responses", expected, returned.len()));
+        }
+        if !rest.is_empty() && !rest.ends_with('\n') {
+            ctx.fail(idx, "sink/record-truncated", "file does not end with a newline".into());
+        }
+        if lines.len() != expected {
+            if n_bad > 0 && lines.len() + n_bad == expected {
+                ctx.fail(
+                    idx,
+                    "app/input-error-response-not-written",
+                    format!("{} queries, {} responses handed back, {} records in the file: the {} responses of queries that failed input processing are not written", expected, returned.len(), lines.len(), n_bad),
+                );
+            } else {
+                ctx.fail(idx, "sink/record-count", format!("{} queries, {} records in the file", expected, lines.len()));
+            }
+        }
+        match &c.fmt {
+            FmtSpec::Json(true) => {
+                let mut parsed = vec![];
+                for l in &lines {
+                    match serde_json::from_str::<Value>(l) {
+                        Ok(v) => parsed.push(v),
+                        Err(e) => ctx.fail(idx, "sink/json-record-unparseable", format!("{}: {}", e, clip(l))),
+                    }
+                }
+                if c.persist {
+                    let mut used = vec![false; written_post.len()];
+                    let all = parsed.len() == written_post.len()
+                        && parsed.iter().all(|g| {
+                            if let Some(j) = (0..written_post.len()).find(|&j| !used[j] && approx_eq(g, &written_post[j])) {
+                                used[j] = true;
+                                true
+                            } else {
+                                false
+                            }
+                        });
+                    if !all {
+                        ctx.fail(idx, "sink/json-record-mismatch", "the records of the file are not the searched responses handed back".into());
+                    }
+                } else {
+                    // nothing is handed back: every record must answer one of the queries
+                    let mut want: Vec<String> = c.queries.iter().filter(|q| q.is_object()).map(|q| q.to_string()).collect();
+                    let mut got: Vec<String> = parsed.iter().map(|v| v.get("request").map(|r| r.to_string()).unwrap_or_default()).collect();
+                    want.sort();
+                    got.sort();
+                    if want != got {
+                        ctx.fail(idx, "sink/json-record-mismatch", format!("requests of the records {:?} are not the queries {:?}", clip(&got.join(";")), clip(&want.join(";"))));
+                    }
+                }
+            }
+            FmtSpec::Csv { cols, .. } if !cols.is_empty() => {
+                let names: Vec<String> = header.trim_end_matches('\n').split(',').map(|s| s.to_string()).collect();
+                let mut want: Vec<String> = written_pre.iter().map(|r| reference_row(cols, &names, r).unwrap_or_default()).collect();
+                let mut got: Vec<String> = lines.iter().map(|s| s.to_string()).collect();
+                want.sort();
+                got.sort();
+                if c.persist && want != got {
+                    ctx.fail(idx, "sink/csv-row-mismatch", format!("rows {:?} expected {:?}", clip(&got.join(";")), clip(&want.join(";"))));
+                }
+                if file.split('\n').filter(|l| *l == header.trim_end_matches('\n')).count() != 1 && file.starts_with(&header) {
+                    ctx.fail(idx, "sink/csv-header-repeated", "more than one header line".into());
+                }
+                for (pre, post) in written_pre.iter().zip(&written_post) {
+                    check_preserved(ctx, idx, pre, post);
+                }
+            }
+            _ => {}
+        }
+    }
+    ctx.emit(idx, line, out);
+    Some(file)
+}
+
+fn gen_query(rng: &mut Rng) -> Value {
+    match rng.below(20) {
+        0 => json!(rng.below(10)),
+        1 => json!(gen_string(rng)),
+        2 | 3 => json!({"origin_vertex": rng.below(3), "destination_vertex": 99}),
+        4 => json!({"origin_vertex": rng.below(3)}),
+        5 => json!({"origin_vertex": rng.below(3), "destination_vertex": rng.below(3), "name": gen_string(rng)}),
+        _ => json!({"origin_vertex": rng.below(3), "destination_vertex": rng.below(3)}),
+    }
+}
+
+fn gen_app_format(rng: &mut Rng, persist: bool) -> FmtSpec {
+    if !persist || rng.chance(1, 2) {
+        return FmtSpec::Json(true);
+    }
+    let pool: [(&str, MapSpec); 7] = [
+        ("origin", p("request.origin_vertex")),
+        ("destination", MapSpec::Optional(Box::new(p("request.destination_vertex")))),
+        ("distance", p("route.traversal_summary.distance")),
+        ("time", MapSpec::Optional(Box::new(p("route.traversal_summary.time")))),
+        ("both", MapSpec::Sum(vec![p("route.traversal_summary.distance"), p("route.traversal_summary.time")])),
+        ("edges", p("route_edges")),
+        ("name", MapSpec::Optional(Box::new(p("request.name")))),
+    ];
+    let mut idxs: Vec<usize> = (0..pool.len()).collect();
+    rng.shuffle(&mut idxs);
+    let n = 1 + rng.below(5);
+    FmtSpec::Csv { cols: idxs[..n].iter().map(|&i| (pool[i].0.to_string(), pool[i].1.clone())).collect(), sorted: rng.chance(1, 2) }
+}
+
 fn strip_error_paths(m: &mut MapSpec) {
     match m {
         MapSpec::Path(p) => {
@@ -988,7 +1282,7 @@ pub fn run(ctx: &mut Ctx) -> &'static str {
         case_f(ctx, idx, &csv(&[("origin", p("request.origin_vertex")), ("path", p("route.path"))], false), &ok_resp);
     }
     if let (idx, true) = begin!() {
-        case_f(ctx, idx, &csv(&[("origin", p("request.origin_vertex")), ("name", p("request.name"))], false), &ok_resp);
+        case_f(ctx, idx, &csv(&[("name", p("request.name"))], false), &ok_resp);
     }
     // (5) sums: empty, null summand, overflow to infinity, integer beyond 2^53, failing summand
     if let (idx, true) = begin!() {
@@ -1139,6 +1433,48 @@ pub fn run(ctx: &mut Ctx) -> &'static str {
                 existing = Some(f);
             }
         }
+    }
+    // ---- end to end: CompassApp::run with a per-run file policy
+    if let Some(app) = build_app() {
+        // corpus: one good query and one that fails input processing — two responses, one record
+        if let (idx, true) = begin!() {
+            let c = AppCase { existing: None, fmt: FmtSpec::Json(true), rate: None, persist: true, parallelism: 2, queries: vec![json!({"origin_vertex": 0, "destination_vertex": 2}), json!(5)] };
+            case_a(ctx, idx, &app, &c);
+        }
+        let n_app = ctx.n(60, 800);
+        let mut k = 0;
+        while k < n_app {
+            let head = next;
+            let mut rng = Rng::for_case(ctx.seed, PROP, head as u64);
+            let persist = rng.chance(1, 2);
+            let fmt = gen_app_format(&mut rng, persist);
+            let mut existing: Option<String> = None;
+            for _ in 0..1 + rng.below(2) {
+                let (here, active) = begin!();
+                k += 1;
+                let nq = rng.below(13);
+                let queries: Vec<Value> = (0..nq).map(|_| gen_query(&mut rng)).collect();
+                let c = AppCase {
+                    existing: existing.clone(),
+                    fmt: fmt.clone(),
+                    rate: if rng.chance(1, 2) { None } else { Some(rng.range(1, 9)) },
+                    persist,
+                    parallelism: if rng.chance(1, 4) { 1 } else { 1 + rng.below(16) },
+                    queries,
+                };
+                let left = if active {
+                    case_a(ctx, here, &app, &c)
+                } else {
+                    let mut silent = Ctx::new(ctx.seed, ctx.tier, None, None);
+                    case_a(&mut silent, here, &app, &c)
+                };
+                if let Some(f) = left {
+                    existing = Some(f);
+                }
+            }
+        }
+    } else {
+        ctx.count("A/app-did-not-build");
     }
     let _ = std::fs::remove_dir(DIR);
     "non-trivial: a sink run that wrote two or more records or used two or more threads (fingerprint: mode, format shape, threads, records, policy, pre-existing file), a CSV row with both failing and succeeding cells, or a Combined sink"
